@@ -25,7 +25,7 @@ ID = 'C12'
 MIN_OBLIGATIONS = 40
 TRUSTED = _c11.TRUSTED + ['os.kill(pid, SIGTERM) delivers SIGTERM; a process that neither blocks nor handles it ends (T4)']
 ASSUMPTIONS = _c11.ASSUMPTIONS + [
-    'L2b: context helper processes and the workers inside a context are not signalled by the handler (that much is checked: L2a frame obligation); they end because PersistentProcessWorker.do_work leaves its loop on pipe EOF when the server dies and RemoteContextWorker.do_work then runs _create_worker(_clean=True) (design probe P-17 observed all descendants gone within 3 s); not under contract in this round',
+    'L2b: context helper processes and the workers inside a context are not signalled by the handler (that much is checked: L2a frame obligation); they end because PersistentProcessWorker.do_work leaves its loop on pipe EOF when the server dies (C05/C06 cone, not re-proved here) and RemoteContextWorker.do_work then always runs _create_worker(_clean=True), whose loop terminates every worker of the context (lemmas L2b-L4b / L2b-L4, the contracts of the C18 cone)',
     'L3: that each parent-side worker becomes dead with has_error True (WorkerTerminatedError if the child could report) is the composition of the server-side forced terminate answering/closing the data socket (lemma L3s) with C10 and C01.L2 (the parent turns a closed or answered data socket into a final result); the composition is argued, not one formula',
     '"shortly afterwards" and OS process-table facts are T4/T9',
 ]
@@ -133,7 +133,27 @@ def build(ex):
         ensures=[signalled], raises={}, raises_only=[],
         loops={0: Loop(invariant=[loop_inv, same_list], variant='__n__ - __i__', modifies=['ghost:killed_pids', 'abs:RCtx.alive'], on_bind=children_bound)},
         options={'recv_closed_check': False})
-    return [(run, None), (L2a, None)] + server_side_terminate(ex) + registration_lemmas(ex) + startup_lemma(ex)
+    return [(run, None), (L2a, None)] + server_side_terminate(ex) + registration_lemmas(ex) + startup_lemma(ex) + context_cleanup_lemmas(ex)
+
+
+def context_cleanup_lemmas(ex):
+    """L2b: the workers INSIDE a context are reaped by nobody but the context's helper process (the server signals only its own children, L2a): when the helper
+    stops serving - deleted, or its pipe from the server at EOF because the server is gone - it runs the clean-up loop, and that loop terminates EVERY worker the
+    context created.  These are the contracts of the C18 cone on RemoteContext._create_worker(_clean=True) and RemoteContextWorker.do_work."""
+    from . import C18 as _c18
+    out = []
+    saved_abs, saved_ext, saved_hooks = dict(ex.abs_classes), dict(ex.ext_models), dict(ex.call_hooks)
+    built = _c18.build(ex)
+    # C18.build re-installs the shared server models; this check's own lemmas keep the instances they were built against
+    ex.abs_classes.update(saved_abs)
+    ex.ext_models.update(saved_ext)
+    ex.call_hooks.update(saved_hooks)
+    for con, v in built:
+        if con.lid in ('L4', 'L4b'):
+            con.name = con.name.replace('C18.' + con.lid, 'C12.L2b-' + con.lid)
+            con.lid = 'L2b-' + con.lid
+            out.append((con, v))
+    return out
 
 
 def startup_lemma(ex):
